@@ -332,6 +332,69 @@ fn judge_plan(c: &super::c05::Case, rec: &mut Rec) -> Verdict {
     }
 }
 
+/// library client with a big tree and several failing operations: copy() must still return
+#[derive(Clone, Debug, Serialize, Deserialize)]
+pub struct ApiBig {
+    pub nfiles: u16,
+    /// every k-th destination file is pre-created as a directory (the copy of that file fails)
+    pub every: u8,
+    pub workers: u8,
+    pub parblock: bool,
+    pub updater: u8,
+}
+
+fn apibig_strategy() -> BoxedStrategy<ApiBig> {
+    (prop_oneof![Just(600u16), Just(1500u16), Just(3000u16)], prop_oneof![Just(7u8), Just(10u8), Just(50u8)], prop_oneof![Just(1u8), Just(2u8), Just(4u8)], any::<bool>(), 0u8..3)
+        .prop_map(|(nfiles, every, workers, parblock, updater)| ApiBig { nfiles, every, workers, parblock, updater })
+        .boxed()
+}
+
+fn judge_apibig(c: &ApiBig, rec: &mut Rec) -> Verdict {
+    let sb = match Sandbox::new() {
+        Ok(s) => s,
+        Err(e) => return Verdict::Inconclusive(format!("sandbox: {e}")),
+    };
+    let mut ents = vec![Ent::dir(b"s"), Ent::dir(b"d"), Ent::dir(b"d/s")];
+    for i in 0..c.nfiles {
+        ents.push(Ent::file(format!("s/f{}", i).as_bytes(), Content::data((i % 30) as u64, 1)));
+        if i % c.every as u16 == 3 {
+            ents.push(Ent::dir(format!("d/s/f{}", i).as_bytes()));
+        }
+    }
+    if let Err(e) = materialise(&sb.root, &ents) {
+        return Verdict::Inconclusive(format!("materialise: {e}"));
+    }
+    let updater = ["record", "channel", "noop"][c.updater as usize % 3];
+    let cfg = json!({"driver": if c.parblock { "parblock" } else { "parfile" }, "sources": ["s"], "dest": "d", "workers": c.workers, "block_size": u64::MAX, "updater": updater, "drain_timeout_ms": 15000});
+    let mut spec = crate::run::RunSpec::xcp(vec![b"copy".to_vec()], &sb.root, &sb.out);
+    spec.bin = std::path::PathBuf::from(crate::run::PROBE_BIN);
+    spec.stdin_data = Some(serde_json::to_vec(&cfg).unwrap());
+    spec.timeout = std::time::Duration::from_secs(90);
+    let o = crate::run::run_plain(&spec);
+    rec.eval(1);
+    let driver = if c.parblock { "parblock" } else { "parfile" };
+    rec.class(format!("apibig|{}|{}|w{}|n={}", driver, updater, c.workers, c.nfiles));
+    rec.nontrivial(case_hash(c));
+    if o.timed_out {
+        return Verdict::Inconclusive("probe itself did not finish".into());
+    }
+    let first = o.stdout.split(|b| *b == b'\n').next().unwrap_or(b"");
+    let v: Value = match serde_json::from_slice(first) {
+        Ok(v) => v,
+        Err(e) => return Verdict::Inconclusive(format!("probe output: {e}")),
+    };
+    let returned = v.get("returned").and_then(|x| x.as_bool()).unwrap_or(false);
+    let closed = v.get("closed").and_then(|x| x.as_bool()).unwrap_or(false);
+    if !returned || !closed {
+        return Verdict::faild(
+            format!("C07|api|{}|{}|{}", driver, updater, if !returned { "copy-did-not-return" } else { "stream-not-closed" }),
+            format!("library client: {} files, every {}th destination a directory, {} workers: copy() {} within 15 s", c.nfiles, c.every, c.workers, if !returned { "did not return" } else { "returned but the stream did not end" }),
+            json!({"config": cfg, "probe": {"ok": v.get("ok"), "error": v.get("error"), "returned": returned, "closed": closed}}),
+        );
+    }
+    Verdict::Pass
+}
+
 /// library client: copy() returns and the stream ends, under schedules and faults (C12's probe)
 fn judge_api(c: &c12::Case, rec: &mut Rec) -> Verdict {
     let mut scratch = Rec::default();
@@ -367,6 +430,7 @@ impl Check for C07 {
         prop_loop(ctx, rec, "cli", strategy(), ctx.share(n), judge);
         prop_loop(ctx, rec, "big", big_strategy(), ctx.share(n / 40), judge);
         prop_loop(ctx, rec, "plan", super::c05::strategy(), ctx.share(n / 2), judge_plan);
+        prop_loop(ctx, rec, "apibig", apibig_strategy(), ctx.share(n / 50), judge_apibig);
         let api = c12::strategy().prop_map(|mut c| {
             if c.sup.is_none() {
                 c.sup = Some(RunCfg { parblock: c.parblock, workers: c.workers, kind: (c.fault_k % 8), seed: c.fault_k as u64 * 7919 + c.workers as u64, change_points: vec![], stall: None });
@@ -376,6 +440,12 @@ impl Check for C07 {
         prop_loop(ctx, rec, "api", api, ctx.share(na), judge_api);
     }
     fn replay(&self, _ctx: &Ctx, sub: &str, case: &Value) -> Verdict {
+        if sub == "apibig" {
+            return match serde_json::from_value::<ApiBig>(case.clone()) {
+                Ok(c) => judge_apibig(&c, &mut Rec::default()),
+                Err(e) => Verdict::Inconclusive(format!("bad case: {e}")),
+            };
+        }
         if sub == "plan" {
             return match serde_json::from_value::<super::c05::Case>(case.clone()) {
                 Ok(c) => judge_plan(&c, &mut Rec::default()),
@@ -400,6 +470,6 @@ impl Check for C07 {
         }
     }
     fn required_classes(&self, _tier: Tier) -> Vec<String> {
-        ["fifo-source", "socket-source", "empty-dir", "empty-file", "|w64|", "|w1|", "|worker|", "|walker|", "|dispatcher|", "api|parblock", "api|parfile|channel", "big-tree", "plan|cfr-errno38", "plan|clamp-cfr"].iter().map(|s| s.to_string()).collect()
+        ["fifo-source", "socket-source", "empty-dir", "empty-file", "|w64|", "|w1|", "|worker|", "|walker|", "|dispatcher|", "api|parblock", "api|parfile|channel", "big-tree", "plan|cfr-errno38", "plan|clamp-cfr", "apibig|parfile", "apibig|parblock"].iter().map(|s| s.to_string()).collect()
     }
 }
